@@ -3,6 +3,9 @@ import QipVerif.Lemmas.ConcatCont
 import QipVerif.Lemmas.ConcatPoints
 import QipVerif.Lemmas.ConcatCompile
 import QipVerif.Lemmas.ConcatGap
+import QipVerif.Lemmas.ConcatAllGaps
+import QipVerif.Lemmas.ConcatSrcCompile
+import QipVerif.Gen.ConcatSrc
 /-!
 # C12 — compiled control pulses are exactly the scheduled instruction waveforms
 
@@ -309,5 +312,188 @@ theorem closed_channel_is_schedule (τ : Rat) (hτ : 0 < τ) (pm : Mode) (final 
 -- the witness of `gap_counterexample` under the repaired gap test: the idle point at t = 2 is there
 example : (concatenateG false (1/1000000000000) (1/1000000) [[(0, .scalar 1 (1/2)), (2, .scalar 2097152 (3/4))]]).toOption
     = some [some ([0, 1, 2, 2097154], [1/2, 0, 3/4])] := by decide +kernel
+
+/-! ### The code as the working tree has it (`Gen/ConcatSrc.lean`), on every schedule
+
+`Gen.concatSrc` is the description of `_process_gate_pulse`, `_process_idling_tlist`, `_concatenate_pulses` and `compile`
+that `py/props/c12.py` reads from the source with `ast` (constants, comparison operators, operands, end points, slices,
+reference of `time_tol`); `concatenateS Gen.concatSrc` is the model the driver runs against the code.  `ChainR thr 0 instrs`:
+well-formed waves, start times sorted, every start at most `thr` before the end of the previous instruction (`thr = 0`:
+non-overlapping; `thr > 0`: the scheduler's rounding), first point of every instruction after that end.  No hypothesis on the
+size of the idle gaps and none on the relative magnitudes of the durations. -/
+
+/-- **The source has the shape the theorems are about** (decided on the regenerated description): the two helper functions
+as modelled, first pulse by emptiness, `time_tol` relative to the largest start or end time and compared with `>`, empty
+channels left empty, final padding `> min_step_size * padTol` with `min_step_size`. -/
+theorem source_shape : Gen.concatSrc.Standard := by decide +kernel
+
+/-- **The tolerance constants of the source** are `1e-12` (idle gap, relative to the total time) and `1e-6` (padding). -/
+theorem source_constants :
+    Gen.concatSrc.cat.gapTol = 1/1000000000000 ∧ Gen.concatSrc.cat.padTol = 1/1000000 ∧ Gen.concatSrc.cat.dropZero = true := by
+  decide +kernel
+
+/-- **The model run against the code is the model of the theorems**: `_concatenate_pulses` as read from the source is
+`concatenateH` at the threshold `time_tol` of the source. -/
+theorem source_is_model (chans : List (List (Rat × Wave))) :
+    concatenateS Gen.concatSrc chans =
+      concatenateH (Gen.concatSrc.timeTol chans) Gen.concatSrc.cat.padTol chans :=
+  concatenateS_std _ source_shape chans
+
+/-- an exactly non-overlapping schedule is in particular a rounded one -/
+theorem exact_schedule_is_rounded (thr : Rat) (hthr : 0 ≤ thr) (last : Rat) (instrs : List (Rat × Wave))
+    (h : Chain last instrs) : ChainR thr last instrs := Chain.chainR hthr h
+
+/-- **`_concatenate_pulses` (repaired shape, any absolute idle-gap threshold `thr ≥ 0`) on every schedule**: it succeeds and
+every channel is the closed form `closedChannelT` (first-pulse chunk, the lists with an idle stretch exactly for the gaps
+`> thr`, padding) with one common final time ≥ every channel's end and one positive min step. -/
+theorem repaired_all_schedules (thr τ : Rat) (hthr : 0 ≤ thr) (hτ : 0 < τ) (chans : List (List (Rat × Wave)))
+    (hne : chans ≠ []) (hch : ∀ ch ∈ chans, ch ≠ [] ∧ ChainR thr 0 ch) :
+    ∃ (pm : Mode) (final ms : Rat), 0 < ms ∧ (∀ ch ∈ chans, endOf 0 ch ≤ final) ∧
+      concatenateH thr τ chans = .ok (chans.map fun ch => some (closedChannelT thr τ pm final ms ch)) :=
+  concatenateH_all thr τ hthr hτ chans hne hch
+
+/-- **The same for the code as read from the source**, `thr = time_tol` of the source. -/
+theorem compiled_source_all_schedules (chans : List (List (Rat × Wave))) (hne : chans ≠ [])
+    (hch : ∀ ch ∈ chans, ch ≠ [] ∧ ChainR (Gen.concatSrc.timeTol chans) 0 ch) :
+    ∃ (pm : Mode) (final ms : Rat), 0 < ms ∧ (∀ ch ∈ chans, endOf 0 ch ≤ final) ∧
+      concatenateS Gen.concatSrc chans = .ok (chans.map fun ch =>
+        some (closedChannelT (Gen.concatSrc.timeTol chans) Gen.concatSrc.cat.padTol pm final ms ch)) := by
+  have hthr : 0 ≤ Gen.concatSrc.timeTol chans := by
+    unfold Src.timeTol
+    refine Rat.mul_nonneg (by decide +kernel) ?_
+    cases h : Gen.concatSrc.cat.gapRef with
+    | step => exact Rat.le_refl
+    | maxStart => exact maxStart_nonneg chans
+    | maxEnd => exact maxEnd_nonneg chans
+  rw [source_is_model]
+  exact concatenateH_all _ _ hthr (by decide +kernel) chans hne hch
+
+/-- **Every channel, every gap size, rounded start times: structure and points.**  The closed form has a grid that starts
+at 0 and increases strictly, a coefficient array that fits the grid for the kind of the channel's first instruction; every
+(grid point, coefficient) pair is explained by the schedule (inside a window `(s, s+duration]` it is a point of that
+instruction with its coefficient, outside all windows the coefficient is 0) and every point of every instruction is present
+with its coefficient.  Any mix of scalar, discrete and continuous instructions. -/
+theorem closed_channel_every_schedule (thr τ : Rat) (hthr : 0 ≤ thr) (hτ : 0 < τ) (pm : Mode) (final ms : Rat) (hms : 0 < ms)
+    (s : Rat) (w : Wave) (rest : List (Rat × Wave)) (h0 : 0 ≤ s) (hc : ChainR thr 0 ((s, w) :: rest)) :
+    let gc := closedChannelT thr τ pm final ms ((s, w) :: rest)
+    gc.1.head? = some 0 ∧ gc.1.Pairwise (· < ·) ∧
+    (w.mode = .discrete → gc.2.length + 1 = gc.1.length) ∧ (w.mode = .continuous → gc.2.length = gc.1.length) ∧
+    (∀ xv ∈ pairsOf w.mode gc.1 gc.2, PointExplained ((s, w) :: rest) xv) ∧
+    (∀ sw ∈ (s, w) :: rest, ∀ yc ∈ sw.2.points, (sw.1 + yc.1, yc.2) ∈ pairsOf w.mode gc.1 gc.2) :=
+  closedChannelT_is_schedule thr τ hthr hτ pm final ms hms s w rest h0 hc
+
+/-- **Discrete channels, every gap size: the step function is the scheduled function at every time outside the idle gaps of
+length `≤ thr`** (`SmallGap`: the gaps below the tolerance, in which the following instruction's first coefficient is
+applied — `tolerance_counterexample`).  Exactly non-overlapping schedule. -/
+theorem discrete_channel_outside_small_gaps (thr τ : Rat) (hthr : 0 ≤ thr) (hτ : 0 < τ) (pm : Mode) (final ms : Rat)
+    (hms : 0 < ms) (s : Rat) (w : Wave) (rest : List (Rat × Wave)) (hc : Chain 0 ((s, w) :: rest))
+    (hd : ∀ sw ∈ (s, w) :: rest, sw.2.mode = .discrete) :
+    let gc := closedChannelT thr τ pm final ms ((s, w) :: rest)
+    ∀ t, ¬ SmallGap thr 0 ((s, w) :: rest) t → stepAt gc.1 gc.2 t = specAt ((s, w) :: rest) t := by
+  intro gc t ht
+  have hcr := Chain.chainR hthr hc
+  obtain ⟨hs1, hs2, hs3, _⟩ := pureLoopT_struct thr hthr _ 0 hcr
+  have hgrid : ((0 : Rat) :: ((pureLoopT thr 0 ((s, w) :: rest)).1 ++ padPts τ pm final ms (endOf 0 ((s, w) :: rest)))).Pairwise (· < ·) :=
+    pairwise_join hs1 hs3 (padPts_pairwise τ hτ pm final ms _ hms)
+  have hm : w.mode = .discrete := hd (s, w) (by simp)
+  have hz : headChunk true ((s, w) :: rest) = ([0], []) := by simp [headChunk, zeroChunk, hm]
+  simp only [gc, closedChannelT, hz, List.nil_append, List.cons_append]
+  rw [stepAt_pad 0 _ _ _ t hs2.symm hgrid]
+  exact pureLoopT_discrete thr hthr _ 0 hc hd t ht
+
+/-- **With every gap `0` or `> thr` there is no gap below the tolerance** and the closed form is the tolerance-free one of
+`closed_channel_is_schedule`: the statement holds at every time. -/
+theorem no_small_gap_when_separated (thr τ : Rat) (hthr : 0 ≤ thr) (pm : Mode) (final ms : Rat)
+    (instrs : List (Rat × Wave)) (hv : ValidG thr 0 instrs) :
+    closedChannelT thr τ pm final ms instrs = closedChannel τ pm final ms instrs ∧ ∀ t, ¬ SmallGap thr 0 instrs t := by
+  refine ⟨?_, no_smallGap_of_validG thr hthr instrs 0 hv⟩
+  simp only [closedChannelT, closedChannel, pureLoopT_eq_of_validG thr hthr instrs 0 hv]
+
+/-- **`compile` as read from the source, end to end**: zero-duration instructions dropped (if the source says so), schedule,
+group by pulse label — channel `l` gets exactly the pulses labelled `l`, in scheduled order, each with its instruction's
+start time; labels distinct; channels non-empty — then `_concatenate_pulses` as read from the source. -/
+theorem compile_source_channels (instrs0 : List Instr) (sch : Option (List Rat × List Nat))
+    (is : List Instr) (starts : List Rat) (groups : List (Nat × List (Rat × Wave)))
+    (hne : keptInstrs Gen.concatSrc.cat.dropZero instrs0 ≠ [])
+    (hs : schedule (keptInstrs Gen.concatSrc.cat.dropZero instrs0) sch = .ok (is, starts))
+    (hg : groupPulses (is.zip starts) [] = some groups) :
+    (groups.map (·.1)).Nodup ∧ (∀ g ∈ groups, g.2 ≠ [] ∧ g.2 = chanOf g.1 (is.zip starts)) ∧
+    compileS Gen.concatSrc instrs0 sch =
+      (match concatenateS Gen.concatSrc (groups.map (·.2)) with
+       | .error e => some (.error e)
+       | .ok outs => some (.ok (some ((groups.map (·.1)).zip outs)))) :=
+  compileWith_channels _ _ instrs0 sch is starts groups hne hs hg
+
+-- non-vacuity: three rectangular pulses on two labels through the source-driven model; a zero-duration instruction is dropped
+example :
+    (match compileS Gen.concatSrc
+        [⟨.scalar 1, [(0, .scalar (1/2))]⟩, ⟨.scalar 0, [(0, .scalar 1)]⟩, ⟨.scalar 2, [(1, .scalar 1)]⟩,
+         ⟨.scalar 1, [(0, .scalar (3/4))]⟩] none with
+      | some (.ok (some outs)) => outs
+      | _ => []) = [(0, some ([0, 1, 3, 4], [1/2, 0, 3/4])), (1, some ([0, 1, 3, 4], [0, 1, 0]))] := by decide +kernel
+
+-- non-vacuity: a rounded schedule (second start 2^-45 before the first end, third 2^-45 after the second end, tolerance 2^-40):
+-- the hypotheses hold and the grid is the concatenation of the instructions' points
+example : ChainR (1/1099511627776) 0
+      [(0, .scalar 1 (1/2)), (1 - 1/35184372088832, .arr [0, 1, 2] [3/4, -1/4]), (3 + 1/35184372088832, .scalar 1 1)] ∧
+    closedChannelT (1/1099511627776) (1/1000000) .discrete 5 1
+      [(0, .scalar 1 (1/2)), (1 - 1/35184372088832, .arr [0, 1, 2] [3/4, -1/4]), (3 + 1/35184372088832, .scalar 1 1)]
+      = ([0, 1, 2 - 1/35184372088832, 3 - 1/35184372088832, 4 + 1/35184372088832, 5], [1/2, 3/4, -1/4, 1, 0]) := by
+  refine ⟨⟨?_, ?_, ?_, ?_, ⟨?_, ?_, ?_, ?_, ⟨?_, ?_, ?_, ?_, trivial⟩⟩⟩, ?_⟩
+  · show (0 : Rat) < 1; decide +kernel
+  · decide +kernel
+  · show (0 : Rat) < 0 + 1; decide +kernel
+  · intro sw h; simp at h; rcases h with rfl | rfl <;> decide +kernel
+  · exact ⟨by decide +kernel, by decide +kernel, by decide +kernel, Or.inl (by decide +kernel)⟩
+  · decide +kernel
+  · show (0 : Rat) + 1 < 1 - 1/35184372088832 + (1 - 0); decide +kernel
+  · intro sw h; simp at h; subst h; decide +kernel
+  · show (0 : Rat) < 1; decide +kernel
+  · decide +kernel
+  · decide +kernel
+  · intro sw h; simp at h
+  · decide +kernel
+
+/-- **The tolerance is a resolution limit** (the code as read from the source): a pulse on `[0,1)`, then a pulse scheduled
+at `1 + 2⁻⁴⁰` — a genuine idle gap of `2⁻⁴⁰ ≈ 0.9·10⁻¹²`, below `time_tol`.  No idle point is inserted and the second
+coefficient is applied from `t = 1` on: at `t = 1 + 2⁻⁴¹` the compiled function is `3/4` while no instruction uses the channel.
+Gaps in `(0, time_tol]` are exactly the exception set `SmallGap` of `discrete_channel_outside_small_gaps`. -/
+theorem tolerance_counterexample :
+    let instrs : List (Rat × Wave) := [(0, .scalar 1 (1/2)), (1 + 1/1099511627776, .scalar 1 (3/4))]
+    Chain 0 instrs ∧
+    (concatenateS Gen.concatSrc [instrs]).toOption = some [some ([0, 1, 2 + 1/1099511627776], [1/2, 3/4])] ∧
+    stepAt [0, 1, 2 + 1/1099511627776] [1/2, 3/4] (1 + 1/2199023255552) = 3/4 ∧
+    specAt instrs (1 + 1/2199023255552) = 0 ∧ SmallGap (Gen.concatSrc.timeTol [instrs]) 0 instrs (1 + 1/2199023255552) := by
+  refine ⟨?_, ?_, ?_, ?_, ?_⟩
+  · refine ⟨?_, by decide +kernel, ?_, by decide +kernel, trivial⟩
+    · show (0 : Rat) < 1; decide +kernel
+    · show (0 : Rat) < 1; decide +kernel
+  · decide +kernel
+  · decide +kernel
+  · decide +kernel
+  · right; left; decide +kernel
+
+/-- **`time_tol` must be relative to the total time, not to the largest start time** (fixes/C12-5.patch).  A pulse on
+`[0,1)`, then a pulse of length `10⁴` whose start time the scheduler returned as `1 - 10⁻¹⁰` (its rounding is relative to the
+sums it forms, here `≈ 10⁴`).  With `thr = 10⁻¹² · (largest start)` the difference counts as an idle gap and the idle point
+`1 - 10⁻¹⁰` is appended after `1`: the grid goes backwards.  With `thr = 10⁻¹² · (largest end)` the schedule is a rounded
+chain (`ChainR`) and the grid is `[0, 1, 10001 - 10⁻¹⁰]`. -/
+theorem maxstart_rounding_counterexample :
+    let instrs : List (Rat × Wave) := [(0, .scalar 1 (1/2)), (1 - 1/10000000000, .scalar 10000 (3/4))]
+    (concatenateH (1/1000000000000 * maxStart [instrs]) (1/1000000) [instrs]).toOption
+      = some [some ([0, 1, 1 - 1/10000000000, 10001 - 1/10000000000], [1/2, 0, 3/4])] ∧
+    ¬ ([0, 1, 1 - 1/10000000000, 10001 - 1/10000000000] : List Rat).Pairwise (· < ·) ∧
+    ChainR (1/1000000000000 * maxEnd [instrs]) 0 instrs ∧
+    (concatenateH (1/1000000000000 * maxEnd [instrs]) (1/1000000) [instrs]).toOption
+      = some [some ([0, 1, 10001 - 1/10000000000], [1/2, 3/4])] := by
+  refine ⟨by decide +kernel, by decide +kernel, ⟨?_, ?_, ?_, ?_, ⟨?_, ?_, ?_, ?_, trivial⟩⟩, by decide +kernel⟩
+  · show (0 : Rat) < 1; decide +kernel
+  · decide +kernel
+  · show (0 : Rat) < 0 + 1; decide +kernel
+  · intro sw h; simp at h; subst h; decide +kernel
+  · show (0 : Rat) < 10000; decide +kernel
+  · decide +kernel
+  · show (0 : Rat) + 1 < 1 - 1/10000000000 + 10000; decide +kernel
+  · intro sw h; simp at h
 
 end QipVerif.C12
